@@ -65,6 +65,7 @@ pub fn proj(p: &Plane, epoch: DateTime<Utc>) -> Value {
         "caps": [clamp(c.flags as i64), c.bds20 as u32, c.bds40 as u32, c.bds44 as u32, c.bds50 as u32, c.bds60 as u32],
         "cat": [clamp(p.category.0 as i64), clamp(p.category.1 as i64)],
         "reg": p.reg,
+        "regcp": cps(p.reg),
         "cs": match &p.ais { Some(s) => json!([cps(s)]), None => json!([]) },
         "alt": ou(p.altitude),
         "altg": ou(p.altitude_gnss),
